@@ -79,11 +79,9 @@ impl Conv {
                         return self.go(c, &mut truncated);
                     }
                     None => {
-                        let mut h: u64 = 0x9e37_79b9 ^ u64::from(*id);
-                        for x in &stack[..keep] {
-                            h = crate::util::mix(h, u64::from(*x));
-                        }
-                        C::Opaque(h)
+                        // identity of the opaque constant: the cell and the depth of its home
+                        // scope (binder ids differ between separate conversions of related terms)
+                        C::Opaque(crate::util::mix(0x9e37_79b9 ^ u64::from(*id), keep as u64))
                     }
                 }
             }
